@@ -44,6 +44,11 @@ type fileLog struct {
 // enumeration rewrites small files several hundred thousand times, which a journalled disk
 // file system makes ten times slower without changing anything the WAL code does.
 func scratchDir(prefix string) (string, error) {
+	if base := os.Getenv("VERIF_C15_SCRATCH"); base != "" {
+		if d, err := os.MkdirTemp(base, prefix); err == nil {
+			return d, nil
+		}
+	}
 	if st, err := os.Stat("/dev/shm"); err == nil && st.IsDir() {
 		if d, err := os.MkdirTemp("/dev/shm", prefix); err == nil {
 			return d, nil
